@@ -9,10 +9,10 @@ AGG_RULES = ["unresolved-import", "circular-import", "prefer-package-imports", "
 PKGS = ["a", "b", "a.c", "d", "b.e"]
 
 
-def gen_file(rng, idx, pkgs):
+def gen_file(rng, idx, pkgs, pkg_meta=0.2):
     pkg = rng.choice(pkgs)
     lines = []
-    if rng.random() < 0.25:
+    if rng.random() < pkg_meta:
         lines += ["# METADATA", "# title: pkg %s" % pkg]
     lines += ["package " + pkg, ""]
     for _ in range(rng.choice([0, 1, 1, 2, 3])):
@@ -27,7 +27,9 @@ def gen_file(rng, idx, pkgs):
     lines.append("")
     for k in range(rng.randint(1, 5)):
         r = rng.random()
-        if r < 0.2:
+        if r < 0.2 and pkg_meta > 0:
+            # (a METADATA block anywhere in a file makes missing-metadata treat the package as annotated, so the
+            # shared-package workspaces carry none)
             lines += ["# METADATA", "# title: r", "# entrypoint: true" if rng.random() < 0.3 else "# description: d"]
         r = rng.random()
         if r < 0.25:
@@ -49,11 +51,15 @@ def gen_file(rng, idx, pkgs):
 
 def gen_workspace(rng, nmin=2, nmax=5):
     n = rng.randint(nmin, nmax)
-    pkgs = rng.sample(PKGS, rng.randint(1, 3))
+    # half of the workspaces spread ONE or two packages over all files, without package metadata: the shapes on which
+    # rules that pick a representative file per package (missing-metadata) or per import cycle depend on nothing but
+    # the aggregate order
+    shared = rng.random() < 0.5
+    pkgs = rng.sample(PKGS, rng.randint(1, 2) if shared else rng.randint(1, 3))
     files = []
     for i in range(n):
         d = rng.choice(["", "x/", "y/", "x/z/"])
-        files.append({"name": "%sf%d.rego" % (d, i), "content": gen_file(rng, i, pkgs)})
+        files.append({"name": "%sf%d.rego" % (d, i), "content": gen_file(rng, i, pkgs, 0.0 if shared else 0.2)})
     return files
 
 
